@@ -9,7 +9,7 @@ One clause of the property is false to the letter on a sliver of inputs: for
 `2e-4 < ‖r‖ ≤ 2 arcsin(1e-4) = 2.0000000033…e-4` the exponential is regular but the logarithm's own
 cut-off (`‖vec‖ = sin(‖r‖/2) ≤ 1e-4`) returns 0, so the round-trip error is `‖r‖`, up to 3.4e-13 above
 the nominal bound 2e-4.  The full-strength statement is kept (`RoundTripWithin2e4`), with
-`log_exp_error_partial`, the honest bound `log_exp_error` (`≤ 2 arcsin(1e-4) < 2.00000001e-4`) and
+`log_exp_within_2e4_partial`, the honest bound `log_exp_bound` (`≤ 2 arcsin(1e-4) < 2.00000001e-4`) and
 `log_exp_cutoff_sliver_counterexample` (witness `r = (2.000000001e-4, 0, 0)`).
 -/
 namespace BFL.Quat
@@ -66,7 +66,7 @@ theorem log_exp_exact_range (r : V3 ℝ) (h1 : 2.00000001e-4 ≤ r.norm) (h2 : r
 
 /-- round-trip error for every `‖r‖ < π`: at most `2 arcsin(1e-4)`, which is below `2.00000001e-4`
     (and above `2e-4`) -/
-theorem log_exp_error (r : V3 ℝ) (h2 : r.norm < π) :
+theorem log_exp_bound (r : V3 ℝ) (h2 : r.norm < π) :
     ((quatLog (quatExp r)).sub r).norm ≤ 2 * Real.arcsin cutoff ∧
     2 * Real.arcsin cutoff < 2.00000001e-4 ∧ 2 * cutoff < 2 * Real.arcsin cutoff := by
   refine ⟨?_, two_arcsin_cutoff_lt, two_cutoff_lt_two_arcsin⟩
@@ -82,7 +82,7 @@ def RoundTripWithin2e4 : Prop :=
   ∀ r : V3 ℝ, r.norm < π → ((quatLog (quatExp r)).sub r).norm ≤ 2e-4
 
 /-- it holds for every `r` outside the sliver `2e-4 < ‖r‖`, `sin(‖r‖/2) ≤ 1e-4` -/
-theorem log_exp_error_partial (r : V3 ℝ) (h2 : r.norm < π)
+theorem log_exp_within_2e4_partial (r : V3 ℝ) (h2 : r.norm < π)
     (h : r.norm ≤ 2e-4 ∨ cutoff < Real.sin (r.norm / 2)) :
     ((quatLog (quatExp r)).sub r).norm ≤ 2e-4 := by
   by_cases hreg : cutoff < r.norm ∧ cutoff < Real.sin (r.norm / 2)
@@ -161,9 +161,9 @@ theorem diff_sum (q : Q ℝ) (hq : q.normSq = 1) (r : V3 ℝ) (h1 : 2.00000001e-
   rw [quatDiff_quatSum q hq r]; exact log_exp_exact_range r h1 h2
 
 /-- … and up to `2 arcsin(1e-4) < 2.00000001e-4` for every `‖r‖ < π`. -/
-theorem diff_sum_error (q : Q ℝ) (hq : q.normSq = 1) (r : V3 ℝ) (h2 : r.norm < π) :
+theorem diff_sum_bound (q : Q ℝ) (hq : q.normSq = 1) (r : V3 ℝ) (h2 : r.norm < π) :
     ((quatDiff (quatSum q r) q).sub r).norm ≤ 2 * Real.arcsin cutoff := by
-  rw [quatDiff_quatSum q hq r]; exact (log_exp_error r h2).1
+  rw [quatDiff_quatSum q hq r]; exact (log_exp_bound r h2).1
 
 /-- adding the difference `p ⊖ q` to `q` gives back `p` (as a rotation: `p` or `-p`) -/
 theorem sum_diff (p q : Q ℝ) (hp : p.normSq = 1) (hq : q.normSq = 1)
